@@ -62,21 +62,33 @@ def run_gen(ck, module, cfg, tag, prefix, actions, workers=TLC_WORKERS, timeout=
     return r, tlc_json_prints(r)
 
 
-def dev_selftests(ck, jobs):
+def dev_selftests_start(ck, jobs, parallel=2):
     """jobs: list of (dev name, module, cfg, expected invariant names or None).  Every deviation flag set TRUE must make TLC
-    report a violation of the Impl specification (of one of the expected invariants).  Runs up to 3 at a time."""
+    report a violation of the Impl specification (of one of the expected invariants).  The runs are started in the background
+    (`parallel` single-worker JVMs at a time) so that they overlap with the driver / validation; join with dev_selftests_join."""
+    ex = cf.ThreadPoolExecutor(max_workers=parallel)
+
     def go(job):
         dev, module, cfg, exp = job
         return job, vf.run_tlc(module, cfg, tag=ck.prop + "_" + dev, workers=1, timeout=600, lib_dirs=[SPECDIR], xmx="2g")
-    with cf.ThreadPoolExecutor(max_workers=3) as ex:
-        res = list(ex.map(go, jobs))
+    return ex, [ex.submit(go, j) for j in jobs]
+
+
+def dev_selftests_join(ck, handle):
+    ex, futs = handle
+    res = [f.result() for f in futs]
+    ex.shutdown()
     for (dev, module, cfg, exp), d in res:
         if d.violated is None or (exp and d.violated not in exp):
             raise vf.Infra("self-test: %s with %s = TRUE should violate %s, got %r %s" % (
                 os.path.basename(module), dev, exp or "an invariant", d.violated, (d.error or "")[-400:]))
         ck.states += d.distinct
         ck.transitions += d.generated
-    ck.note("self-test: each of %d deviation flags makes TLC report a violation (%s)" % (len(jobs), ", ".join(j[0] for j in jobs)))
+    ck.note("self-test: each of %d deviation flags makes TLC report a violation (%s)" % (len(res), ", ".join(j[0][0] for j in res)))
+
+
+def dev_selftests(ck, jobs, parallel=3):
+    dev_selftests_join(ck, dev_selftests_start(ck, jobs, parallel))
 
 
 def run_drv(binary, cases_path, out_path, batch=400, parallel=8, extra=(), timeout=1500):
